@@ -11,6 +11,11 @@ pub(crate) fn peek_audio<W: std::io::Write>(w: &Mp4Writer<W>, i: usize) -> Optio
     w.audio_samples.get(i).map(|s| (s.pts, s.dts, s.data.len()))
 }
 
+/// (sample rate, channels, is Opus) of the audio track registered with the writer, if any
+pub(crate) fn peek_audio_cfg<W: std::io::Write>(w: &Mp4Writer<W>) -> Option<(u32, u16, bool)> {
+    w.audio_track.as_ref().map(|t| (t.sample_rate, t.channels, matches!(t.codec, AudioCodec::Opus)))
+}
+
 fn stub_inv(condition: bool, _message: &str, _context: Option<&str>) {
     assert!(condition, "assert_invariant! violated");
 }
